@@ -115,7 +115,7 @@ def gen_tf(rng, case):
     nodes = gen.tumors_of(g) + gen.lnls_of(g)
     mods = sorted({m[0] for m in case["mods"]} | set(case.get("table_mods", [])))
     tf = {"node_rank": None, "conn_rank": None, "rename": None, "mod_rename": None, "mod_rank": None,
-          "col_seed": None, "swap": False}
+          "col_seed": None, "swap": False, "contra_rank": None}
     if rng.random() < 0.8:
         tf["node_rank"] = _ranks(rng, nodes)
     if rng.random() < 0.7:
@@ -143,6 +143,8 @@ def gen_tf(rng, case):
         tf["col_seed"] = rng.randrange(1 << 30)
     if case["cls"] == "bi" and rng.random() < 0.5:
         tf["swap"] = True
+    if case["cls"] == "bi" and not tf["swap"] and rng.random() < 0.5:
+        tf["contra_rank"] = _ranks(rng, nodes)      # the contralateral side lists the same graph in another order
     return tf
 
 
@@ -188,6 +190,11 @@ def transform(case: dict, tf: dict) -> dict:
     c["graph"] = {"base": g["base"],
                   "entries": [[k, ren.get(n, n), [ren.get(x, x) for x in _by_rank(cs, tf.get("conn_rank"))]]
                               for k, n, cs in entries]}
+    if tf.get("contra_rank") and case["cls"] == "bi" and not swap:
+        centries = _by_rank(g["entries"], tf.get("contra_rank"), key=lambda e: e[1])
+        c["contra_graph"] = {"base": g["base"],
+                             "entries": [[k, ren.get(n, n), [ren.get(x, x) for x in _by_rank(cs, tf.get("conn_rank"))]]
+                                         for k, n, cs in centries]}
     c["params"] = {map_param_name(n, ren, swap): v for n, v in (case.get("params") or {}).items()}
     c["mods"] = [[mren.get(m[0], m[0])] + list(m[1:]) for m in _by_rank(case["mods"], tf.get("mod_rank"), key=lambda m: m[0])]
     c["table_mods"] = [mren.get(m, m) for m in _by_rank(case["table_mods"], tf.get("mod_rank"))]
@@ -256,6 +263,9 @@ def observe(case):
     g = _graph_of(m, case["cls"])
     out["lnls"] = list(g.lnls.keys())
     out["states"] = [list(map(int, row)) for row in np.asarray(g.state_list)]
+    if case["cls"] == "bi":
+        out["c_lnls"] = list(m.contra.graph.lnls.keys())
+        out["c_states"] = [list(map(int, row)) for row in np.asarray(m.contra.graph.state_list)]
     mode = case["mode"]
     call("lik", lambda: float(m.likelihood(mode=mode)))
     call("lik_lin", lambda: float(m.likelihood(log=False, mode=mode)))
@@ -319,7 +329,12 @@ def relation(case, tf, o1=None, o2=None):
     if case["cls"] == "uni":
         want = A[idx]
     elif case["cls"] == "bi":
-        want = (A.T if tf.get("swap") else A)[np.ix_(idx, idx)]
+        if tf.get("swap"):
+            want = A.T[np.ix_(idx, idx)]
+        else:
+            idx_c = state_perm({"states": o1["c_states"], "lnls": o1["c_lnls"]},
+                               {"states": o2["c_states"], "lnls": o2["c_lnls"]}, tf.get("rename"))
+            want = A[np.ix_(idx, idx_c)]
     else:
         want = A[:, idx][:, :, idx]
     if want.shape != B.shape:
@@ -439,7 +454,7 @@ def candidates(pair):
     case, tf = pair
     out = []
     # 1. fewer transformations
-    for k in ("swap", "rename", "mod_rename", "node_rank", "conn_rank", "mod_rank", "col_seed"):
+    for k in ("swap", "rename", "mod_rename", "node_rank", "conn_rank", "mod_rank", "col_seed", "contra_rank"):
         if tf.get(k):
             t2 = dict(tf)
             t2[k] = False if k == "swap" else None
@@ -460,9 +475,9 @@ def candidates(pair):
 
 
 def what_changed(tf):
-    ks = [k for k in ("node_rank", "conn_rank", "rename", "mod_rename", "mod_rank", "col_seed", "swap") if tf.get(k)]
+    ks = [k for k in ("node_rank", "conn_rank", "rename", "mod_rename", "mod_rank", "col_seed", "swap", "contra_rank") if tf.get(k)]
     return "+".join({"node_rank": "nodes", "conn_rank": "arcs", "rename": "names", "mod_rename": "modnames",
-                     "mod_rank": "modorder", "col_seed": "columns", "swap": "sides"}[k] for k in ks) or "identity"
+                     "mod_rank": "modorder", "col_seed": "columns", "swap": "sides", "contra_rank": "contralisting"}[k] for k in ks) or "identity"
 
 
 def shrink_pair(pair, budget_s=30.0):
